@@ -230,10 +230,15 @@ class AbortRegistered(ConnSpec):
     from _added and the cache; every other registered object that is in the cache becomes a ghost
     (so that it shows its last committed state on next access); nothing else changes"""
     func = CONN + '._abort'
+    cases = ('plain', 'disowning-given')
 
     def setup(self, c, case=None):
         w = CM.mk_conn(c)
-        return {'self': w.self}
+        if case == 'disowning-given':
+            g = prims.new_map(c, 'bytes8', 'bool', 'disowning')
+            c.roles.array(c.obj(g).f['dom'], 'oid')
+            return {'self': w.self, 'disowning': g}
+        return {'self': w.self, 'disowning': VTuple([])}
 
     def modifies(self, c, E):
         w = world(c)
@@ -256,7 +261,18 @@ class AbortRegistered(ConnSpec):
         seen = lambda x: inlist(w, reg, x, upto)
         was_added = lambda x: sel(added0['dom'], sel(u0['oid'], x))
         A = lambda x: z3.And(seen(x), was_added(x))
-        Bc = lambda x: z3.And(seen(x), z3.Not(was_added(x)), cached(u0, cache0, x))
+        # new objects that the caller is about to disown are left alone (they keep their state)
+        creating0 = E.old[w.creating.id]
+        dis = E['disowning']
+        if isinstance(dis, VRef) and c.obj(dis).kind == 'map':
+            dd = c.obj(dis).f['dom']
+            spared = lambda o: z3.Or(sel(creating0['dom'], o), sel(dd, o))
+        elif isinstance(dis, VTuple) and not dis.items:
+            spared = lambda o: sel(creating0['dom'], o)
+        else:
+            raise Unsupported('_abort(disowning=%r)' % (dis,))
+        Bc = lambda x: z3.And(seen(x), z3.Not(was_added(x)), cached(u0, cache0, x),
+                              z3.Not(spared(sel(u0['oid'], x))))
         gone = lambda o: z3.And(sel(added0['dom'], o), seen(sel(added0['val'], o)))
         return [
             ('added-objects-are-disowned', All(['obj'], lambda x: z3.Implies(A(x), disowned(u0, u1, x)))),
@@ -307,8 +323,9 @@ def new_in_txn(c, E, w):
 
 
 def not_owned(u0, u1, x):
-    return z3.And(sel(u1['jar'], x) == 0, sel(u1['oid'], x) == -1, sel(u1['changed'], x) != 1,
-                  sel(u1['serial'], x) == sel(u0['serial'], x))
+    """belongs to no database any more AND keeps its state: a new object has no committed state to go
+    back to, so it must not be turned into a ghost (changed stays as it was, True becomes False)"""
+    return disowned(u0, u1, x)
 
 
 class Abort(ConnSpec):
@@ -380,7 +397,8 @@ class TpcAbort(ConnSpec):
         return {'self': w.self, 'transaction': w.txn}
 
     def requires(self, c, E):
-        return conninv(c, world(c), only=('CACHE-INV', 'ADDED-INV', 'OID-INJ', 'OID-RANGE'))
+        return conninv(c, world(c), only=('CACHE-INV', 'ADDED-INV', 'OID-INJ', 'OID-RANGE',
+                                          'ADDED-NOT-MODIFIED'))
 
     def modifies(self, c, E):
         w = world(c)
@@ -1004,8 +1022,9 @@ class RollbackSavepoint(ConnSpec):
             N = lambda x: z3.Or(A(x), CA(x))
             written_after = lambda x: z3.And(cached(u0, cache0, x), sel(idx0['dom'], oid0(x)),
                                              sel(idx0['val'], oid0(x)) >= spos.t)
+            own_creating0 = E.old[w.creating.id]
             modified = lambda x: z3.And(inlist(w, reg, x), z3.Not(sel(added0['dom'], oid0(x))),
-                                        cached(u0, cache0, x))
+                                        cached(u0, cache0, x), z3.Not(sel(own_creating0['dom'], oid0(x))))
             in_index = lambda x: z3.And(cached(u0, cache0, x), sel(idx0['dom'], oid0(x)))
             S = cc.obj(w.self).f
             src = cc.obj(w.src).f
